@@ -5,6 +5,15 @@ HERE = os.path.dirname(os.path.abspath(__file__))
 BASELINE = "cd /repo && /venv/bin/python -m pytest -ra -q -p no:cacheprovider --timeout=900 --continue-on-collection-errors"
 
 CLAIMED = {
+    'C09': dict(
+        design='4.9',
+        text='Proof by exact computation of the kernel: every branch of the real points.gauss2 / points.gauss3 table code (degrees 0..8 / 0..9, i.e. all branches incl. the '
+             'fall-through) is executed with exact rational arithmetic and the arrays it builds must have weights summing to 1/d!, all points inside the simplex, and integrate every '
+             'monomial up to the advertised degree exactly (|error| <= 5e-15 for the 16-digit decimal constants, 0 for the rational tables); gauss1 requests enough Gauss-Legendre points '
+             'for every degree >= 0 (symbolic). Exhaustive over the finite table; ground obligations discharged by z3.',
+        note='Machine arithmetic treated as mathematical (decimal literals are the rationals they spell). Trusted: exactness 2N-1 of the N-point Gauss-Legendre rule and the eigen-solver gauss() '
+             'itself; linearity (monomials => polynomials). The sample/integral half of the property (index partition, zipping, weights times Jacobian) is outside; not built.',
+        technique='contract-based verification: real table code executed symbolically in exact-rational mode, ground obligations to z3'),
     'C14': dict(
         design='4.14',
         text='Deductive proof of the certification logic: Matrix._solver (normal return => zero solution only within tolerance, or the backend result is finite and meets '
@@ -47,7 +56,7 @@ NOT_APPLICABLE = {
     'C02': 'whole-DAG faithful translation into generated numpy programs: no function-level postcondition carries it; would need a denotational semantics of ~150 node classes and of the generated code (DESIGN 4.2)',
     'C03': 'history/non-interference property of a program that exists only as a generated string; no per-function contract expresses it (DESIGN 4.3)',
 }
-PENDING = ['C04', 'C05', 'C07', 'C08', 'C09', 'C10', 'C11', 'C12', 'C13', 'C16', 'C17', 'C18', 'C19', 'C20']
+PENDING = ['C04', 'C05', 'C07', 'C08', 'C10', 'C11', 'C12', 'C13', 'C16', 'C17', 'C18', 'C19', 'C20']
 
 
 def main():
